@@ -16,7 +16,9 @@ def setup_path():
         sys.path.insert(0, REPO)
     if ROOT not in sys.path:
         sys.path.insert(1, ROOT)
-    sys.dont_write_bytecode = True
+    # compiled bytecode goes to a private cache (never into /repo); it is rebuilt automatically when sources change
+    sys.dont_write_bytecode = False
+    sys.pycache_prefix = os.path.join(ROOT, '.pycache')
 
 
 setup_path()
